@@ -294,6 +294,10 @@ def templates():
                                                                    ("other", ("block", [mark(7), I(30)]))])), fin(V("r"))])
             T.append([L, EFFC, Z, ("set", "c", I(sc)), ("fndecl", "f", [], ANY, [("return", ("match", V("c"), [("val", cands, ("block", [I(20)])), ("other", ("block", [I(30)]))]))]),
                       fin(("call", V("f"), []))])
+    # `if` as a value whose branches fold to the same constant: the condition's effects stay
+    for br in ((I(7), I(7)), (("s", "ab"), ("bin", "add", ("s", "a"), ("s", "b")))):
+        T.append([L, EFFC, ("set", "x", ("ifx", ("bin", "gt", ("call", V("e"), [I(3)]), I(1)), br[0], br[1])), fin(V("x"))])
+        T.append([L, EFFC, fin(("if", ("bin", "gt", ("call", V("e"), [I(3)]), I(1)), ("block", [br[0]]), ("block", [br[1]])))])
     # captured constants and names re-declared after capture
     T.append([L, ("set", "x", I(5)), ("fndecl", "f", [], INT, [("return", ("bin", "add", V("x"), I(1)))]), ("set", "x", I(100)), fin(("tuple", [("call", V("f"), []), V("x")]))])
     T.append([L, ("set", "x", I(0)), ("fndecl", "f", [("p", INT)], INT, [("if", ("bin", "eq", V("p"), I(0)), ("block", [("return", I(-1))]), None), ("return", ("bin", "div", V("p"), V("p")))]),
